@@ -3,6 +3,15 @@
 From Coq Require Import Lia.
 From AV Require Import Base.Util Model.Consumer.
 
+(* Kernel conversion hint: when Qed re-checks a [change]/[cbn] on a hypothesis  <program> s = (r, s', o)  the two
+   sides may have different head constants (a boolean test on one side, [bind] on the other); unfolding the program
+   side first symbolically executes the whole method (seconds to minutes per step).  Program constants unfold LAST. *)
+Strategy 1000 [bind ret raise try swallow emit get upd startd_errback do_fetch retry_fetch handle_offset_response
+  handle_offset_error handle_fetch_error handle_auto_commit_error handle_processor_error send_commit_request commit
+  auto_commit proc_chain pop_plan emit_shutd interrupted api_stop api_commit handle_commit_error fire_all finish_block
+  stop_req stop_mblock stop_proc stop_rcall stop_creq stop_ccall stop_looper stop_susp stop_startd body run flush_pend
+  handle step].
+
 (* ---------- inversion of executions ---------- *)
 Lemma bind_inv {A B} (m : M A) (f : A -> M B) s r s' o :
   bind m f s = (r, s', o) ->
@@ -141,6 +150,7 @@ Ltac minv :=
           | H : (match ?x with _ => _ end) _ = (_, _, _) |- _ => dmatch x
           | H : (if ?b then _ else _) _ = (_, _, _) |- _ => dmatch b
           | H : (let (_, _) := ?x in _) _ = (_, _, _) |- _ => dmatch x
+          | H : (_, _, _) = (_, _, _) |- _ => inversion H; clear H
           | H : Ok _ = Ok _ |- _ => inversion H; clear H
           | H : Exc _ = Exc _ |- _ => inversion H; clear H
           | H : Ok _ = Exc _ |- _ => discriminate H
@@ -159,3 +169,84 @@ Ltac bsimp := repeat match goal with
   | H : (_ <? _) = true |- _ => apply Z.ltb_lt in H
   | H : (_ <? _) = false |- _ => apply Z.ltb_ge in H
   end.
+
+(* ---------- one step = one handler, which never raises, followed by the end-of-step marker ---------- *)
+Lemma handle_ok fuel e s r s' o : handle fuel e s = (r, s', o) -> r = Ok tt.
+Proof.
+  intro H. unfold handle in H. cbn zeta in H. destruct e; unfold api_stop, api_commit, flush_pend in H.
+  all: minv; try reflexivity.
+  all: try (destruct a; reflexivity).
+Qed.
+Lemma step_inv fuel s e s' o : step fuel s e = (s', o) ->
+  exists o1, handle fuel e s = (Ok tt, s', o1) /\ o = o1 ++ [OEnd (s_lp s') (s_lc s')].
+Proof.
+  unfold step. destruct (bind _ _ s) as [[r s1] o1] eqn:E. intro H. inversion H; subst. clear H.
+  minv.
+  - destruct a. eauto.
+  - apply handle_ok in E0. discriminate.
+Qed.
+
+(* ---------- depth-first inversion of ONE execution hypothesis (much faster than [minv]) ---------- *)
+Ltac psimpl_in H := cbn [s_cf s_maxatt s_buf s_ridx s_att s_foff s_lp s_lc s_stopping s_shutting s_shutd s_susp s_startd s_req s_rcall s_ccall s_creq s_cds s_looper s_mblock s_proc s_plan s_ncommit s_inapi s_pend set_maxatt set_buf set_ridx set_att set_foff set_lp set_lc set_stopping set_shutting set_shutd set_susp set_startd set_req set_rcall set_ccall set_creq set_cds set_looper set_mblock set_proc set_plan set_ncommit set_inapi set_pend fst snd] in H.
+
+(* the scrutinee x of the match at the head of H: compute it if it is closed, reuse a known equation, or split *)
+Ltac mi_case H x :=
+  first [ let v := eval cbn in x in
+          lazymatch v with
+          | true => change x with true in H | false => change x with false in H
+          end
+        | match goal with E : x = _ |- _ => rewrite E in H end
+        | let D := fresh "D" in destruct x eqn:D ].
+
+Ltac mi_res H :=
+  let Hr := fresh "Hr" in destruct H as (Hr & ? & ?); first [discriminate Hr | inversion Hr; clear Hr; subst].
+
+Ltac mi H :=
+  cbn beta iota in H; psimpl_in H;
+  lazymatch type of H with
+  | bind _ _ _ = _ =>
+    let a := fresh "a" in let s1 := fresh "s" in let o1 := fresh "o" in let o2 := fresh "o" in
+    let H1 := fresh "E" in let H2 := fresh "E" in let k := fresh "k" in let Ho := fresh "Ho" in let Hr := fresh "Hr" in
+    apply bind_inv in H; destruct H as [(a & s1 & o1 & o2 & H1 & H2 & Ho) | (k & H1 & Hr)];
+    [ subst; mi H1; mi H2 | subst; mi H1 ]
+  | try _ _ = _ => let r0 := fresh "r" in let H1 := fresh "E" in let Hr := fresh "Hr" in
+                   apply try_inv in H; destruct H as (r0 & H1 & Hr);
+                   first [discriminate Hr | inversion Hr; clear Hr; subst; mi H1]
+  | swallow _ _ = _ => let r0 := fresh "r" in let H1 := fresh "E" in let Hr := fresh "Hr" in
+                       apply swallow_inv in H; destruct H as (r0 & H1 & Hr);
+                       first [discriminate Hr | inversion Hr; clear Hr; subst; mi H1]
+  | get _ = _ => apply get_inv in H; mi_res H
+  | upd _ _ = _ => apply upd_inv in H; mi_res H
+  | emit _ _ = _ => apply emit_inv in H; mi_res H
+  | ret _ _ = _ => apply ret_inv in H; mi_res H
+  | raise _ _ = _ => apply raise_inv in H; mi_res H
+  | run (S _) _ _ = _ => cbn [run] in H; unfold body in H; cbn [extract] in H; mi H
+  | (match ?x with _ => _ end) _ = _ => mi_case H x; mi H
+  | (if ?x then _ else _) _ = _ => mi_case H x; mi H
+  | (let (_, _) := ?x in _) _ = _ => mi_case H x; mi H
+  | (_, _, _) = (_, _, _) => first [discriminate H | inversion H; clear H; subst]
+  | _ => idtac
+  end.
+
+(* finishing: split the goal, simplify projections, decide by congruence / linear arithmetic *)
+(* propagate boolean facts  x = true / x = false  into the other hypotheses and compute *)
+Ltac bprop :=
+  repeat match goal with
+         | H : ?x = true |- _ => lazymatch x with true => fail | false => fail | _ => rewrite H in *; clear H end
+         | H : ?x = false |- _ => lazymatch x with true => fail | false => fail | _ => rewrite H in *; clear H end
+         end;
+  cbn [orb andb negb implb] in *.
+Ltac fin :=
+  psimpl; cbn [app] in *;
+  repeat (first [ progress intros | match goal with |- _ /\ _ => split end ]);
+  try reflexivity; try congruence; bsimp; try congruence; try lia;
+  bprop; try discriminate; try congruence; try lia.
+
+(* invert every execution hypothesis that can still be inverted (after unfolding more methods) *)
+Ltac res_inv := repeat match goal with
+  | H : Exc _ = Exc _ |- _ => inversion H; clear H; subst
+  | H : Ok _ = Ok _ |- _ => inversion H; clear H; subst
+  | H : Ok _ = Exc _ |- _ => discriminate H
+  | H : Exc _ = Ok _ |- _ => discriminate H
+  end.
+Ltac mi_all := repeat (res_inv; match goal with E : _ = (_, _, _) |- _ => progress (mi E) end); res_inv.
